@@ -213,6 +213,7 @@ def check(F, run, tier):
     run.add(c20.clm_names(F, S))
     run.add(c18.sort_before_layout(F, S)[1:])
     run.add(c19.compare_path_filenames(F))
+    run.add(c19.get_filename_shape(F))
     run.add(c19.duplicate_scan(F))
     wc = F.fn(AR + "WaveHeader::Create", nparams=2)
     run.add(c18.returned_defined(F, S, wc))
